@@ -33,6 +33,9 @@ pub enum Site {
     UnlockBegin(u64),
     /// A pending wait for a per-key mutex is being abandoned (future dropped). Payload: hash of the key.
     CancelBegin(u64),
+    /// A point in the middle of a critical section (the thread holds the global lock). Payload: which one.
+    /// A harness may pause here to let other threads do what they can do without the global lock.
+    InCs(u32),
 }
 
 /// What the harness has to implement.
@@ -93,6 +96,14 @@ pub fn before_key_try<T>(mutex: &T) {
 pub fn before_key_wait<T>(mutex: &T) {
     if glock_depth() == 0 {
         at(Site::KeyWait(mutex as *const T as usize));
+    }
+}
+
+/// Optional scheduling point in the middle of a critical section (only reported while the global lock is held).
+#[inline]
+pub fn in_cs(id: u32) {
+    if glock_depth() != 0 {
+        at(Site::InCs(id));
     }
 }
 
